@@ -62,6 +62,32 @@ Fixpoint newton_loop (atol rtol : ext) (ls : bool) (msearch : nat) (obs : nat ->
 Definition newton (atol rtol : ext) (miters : nat) (ls : bool) (msearch : nat) (obs : nat -> ext) : outcome :=
   newton_loop atol rtol ls msearch obs (obs 0%nat) miters 1%nat (obs 0%nat).
 
+(* where the iterate ends up when every Newton direction is the unit step (the scripted runs return
+   dx = 1): a line search that succeeds at its t-th trial, or runs out after t = max_search trials,
+   leaves x_last - 1/2^(t-1); without a search every update subtracts the full step *)
+Fixpoint ls_trials (obs : nat -> ext) (nlast : ext) (p : nat) (n : nat) : nat :=
+  match n with
+  | O => O
+  | S n' => if lt (obs p) nlast then 1%nat else S (ls_trials obs nlast (S p) n')
+  end.
+
+Definition ls_step (t : nat) : Q := match t with O => 0 | S k => 1 / inject_Z (2 ^ Z.of_nat k) end.
+
+Fixpoint newton_pos (atol rtol : ext) (ls : bool) (msearch : nat) (obs : nat -> ext) (nr0 : ext)
+         (iters : nat) (p : nat) (nr : ext) (x : Q) : Q :=
+  match iters with
+  | O => x
+  | S it =>
+    if conv atol rtol nr nr0 then x
+    else if ls
+         then let '(p', v) := linesearch obs nr p msearch nr in
+              newton_pos atol rtol ls msearch obs nr0 it p' v (x - ls_step (ls_trials obs nr p msearch))
+         else newton_pos atol rtol ls msearch obs nr0 it (S p) (obs p) (x - 1)
+  end.
+
+Definition newton_x (atol rtol : ext) (miters : nat) (ls : bool) (msearch : nat) (obs : nat -> ext) (x0 : Q) : Q :=
+  newton_pos atol rtol ls msearch obs (obs 0%nat) miters 1%nat (obs 0%nat) x0.
+
 (* ---- thermal.solve_step ------------------------------------------------------ *)
 (* one norm per pass; convergence is only accepted from the second pass on *)
 Fixpoint thermal_loop (atol rtol : ext) (obs : nat -> ext) (iters : nat) (i : nat) : outcome :=
